@@ -486,6 +486,66 @@ def replay_gmres(rep, light=False):
 
 
 # ------------------------------------------------------------------------------------------------
+# GMRES on ill-conditioned (dyadic, exact) operators: the reported residual is the residual of the returned x
+# ------------------------------------------------------------------------------------------------
+def exact_rel_residual(case, xa, bflat):
+    """|A x - b| / |b| in exact rational arithmetic (A = A_int / (s ds) from the spec, x = the returned floats)"""
+    from fractions import Fraction
+    tot = Fraction(0)
+    o = 0
+    for blk in case['blocks']:
+        n = blk['n']
+        den = blk['s'] * case.get('ds', 1)
+        xr = [Fraction(float(z.real)) for z in xa[o:o + n]]
+        xi = [Fraction(float(z.imag)) for z in xa[o:o + n]]
+        for i in range(n):
+            re = -den * Fraction(float(bflat[o + i].real))
+            im = -den * Fraction(float(bflat[o + i].imag))
+            for j in range(n):
+                ar, ai = blk['A'][i][j]
+                re += ar * xr[j] - ai * xi[j]
+                im += ar * xi[j] + ai * xr[j]
+            tot += (re * re + im * im) / (den * den)
+        o += n
+    return math.sqrt(float(tot)) / float(np.linalg.norm(bflat))
+
+
+def replay_gmresill(rep, light=False):
+    from tenpy.linalg import krylov_based as kb
+    case = rep.case
+    B = hk.Built(case, rep.variant)
+    A, dim = B.A, B.dim
+    b = B.v                      # right-hand side with a component on every eigenvector
+    xs = hk.bv_flat(case['xs'])  # exact solution (integers up to 2^28)
+    mg = case['mg']
+    nb = float(np.linalg.norm(b))
+    for res in (1.0e-6, 1.0e-8):
+        opts = dict(N_max=mg, N_min=0, res=res)
+        classes = dict(herm=case['fl'] == 'herm', real=B.real, dim=mg)
+        with warnings.catch_warnings():
+            warnings.simplefilter('ignore')
+            x, rp, tot_err, tot_it = kb.GMRES(B.op(), B.vec(np.zeros(dim), dtype=np.complex128), B.vec(b, dtype=np.complex128),
+                                              dict(opts)).run()
+        rep.count('GMRES-illcond', res)
+        xa = B.arr(x)
+        det = dict(options=opts, reported=float(np.real(rp)), total_iters=[int(i) for i in tot_it],
+                   x=[[float(c.real), float(c.imag)] for c in xa])
+        if not np.all(np.isfinite(xa)):
+            rep.fail('GMRES', 'not-finite', dict(classes, illcond=True), det)
+            continue
+        exact = exact_rel_residual(case, xa, b)
+        # rounding error of evaluating A x - b once in floating point (the reported value is such an evaluation)
+        nu = float(np.finfo(float).eps * np.linalg.norm(np.abs(A) @ np.abs(xa) + np.abs(b)) / nb)
+        converged = float(np.real(tot_err[-1][-1])) < res
+        det.update(exact_residual=exact, rounding_unit=nu, last_cycle_converged=converged)
+        if abs(float(np.real(rp)) - exact) > 1.0e-3 * exact + 4 * nu + 1.0e-13:
+            rep.fail('GMRES', 'reported-residual', dict(classes, illcond=True, converged=converged), det)
+        if rel(xa - xs) > 1.0e-6 * float(np.max(np.abs(xs))):
+            rep.fail('GMRES', 'solution', dict(classes, illcond=True, converged=converged),
+                     dict(det, expected=[[float(c.real), float(c.imag)] for c in xs]))
+
+
+# ------------------------------------------------------------------------------------------------
 # gram_schmidt
 # ------------------------------------------------------------------------------------------------
 def replay_gs(rep, light=False):
@@ -518,7 +578,8 @@ def replay_gs(rep, light=False):
                 break
 
 
-REPLAY = dict(lanczos=replay_lanczos, evo=replay_evo, arnoldi=replay_arnoldi, gmres=replay_gmres, gs=replay_gs)
+REPLAY = dict(lanczos=replay_lanczos, evo=replay_evo, arnoldi=replay_arnoldi, gmres=replay_gmres, gs=replay_gs,
+              gmresill=replay_gmresill)
 
 
 def replay_case(ctx, case, origin, variant, light, traces):
@@ -547,7 +608,8 @@ def replay_case(ctx, case, origin, variant, light, traces):
 # ------------------------------------------------------------------------------------------------
 # stages
 # ------------------------------------------------------------------------------------------------
-KINDS = ('lanczos', 'evo', 'arnoldi', 'gmres', 'gs')
+KINDS = ('lanczos', 'evo', 'arnoldi', 'gmres', 'gs')        # kinds of the random catalogue
+ALL_KINDS = KINDS + ('gmresill',)
 
 
 def run_control_flow(tier):
@@ -572,6 +634,11 @@ LADDER = ('ladder', dict(Kinds={'lanczos', 'evo'}, Flavours={'herm'}, Charges={0
                          Perms={'cyc'}, UnitKinds={'gau'}, AVals='<-AValsOne', DMode='ladder', Sigmas='<-SigmasPM'))
 
 
+# ill-conditioned, still exact: eigenvalues 2^0 .. 2^-26 (cond = 6.7e7), Hadamard-type eigenvectors, up to 8 x 8
+ILL = ('ill', dict(Kinds={'gmresill'}, Flavours={'herm'}, Charges={0}, Sizes={4}, MaxBlocks=2, MaxDim=8, Perms={'cyc'},
+                   UnitKinds={'one', 'gau'}, AVals='<-AValsOne', DMode='dyadic'))
+
+
 def mc_cfgs(tier):
     """small catalogues, exhaustive"""
     if tier == 'quick':
@@ -579,14 +646,14 @@ def mc_cfgs(tier):
                               MaxBlocks=2, MaxDim=2, Sigmas='<-SigmasPM')),       # E_shift absent, > 0, < 0
                 ('gen', dict(Kinds={'evo', 'arnoldi', 'gmres', 'gs'}, Flavours={'gen'}, Charges={0}, Sizes={1, 2},
                              MaxBlocks=1, MaxDim=2, MaxGsRows=2)),
-                LADDER]
+                LADDER, ILL]
     return [('herm', dict(Kinds={'lanczos', 'evo', 'arnoldi', 'gmres'}, Flavours={'herm'}, Charges={0, 1}, Sizes={1, 2},
                           MaxBlocks=2, MaxDim=2, Perms={'id', 'cyc'}, UnitKinds={'gau', 'alt'}, Sigmas='<-SigmasPM')),
             ('gen', dict(Kinds={'evo', 'arnoldi', 'gmres', 'gs'}, Flavours={'gen'}, Charges={0, 1}, Sizes={1, 2},
                          MaxBlocks=2, MaxDim=2, MaxGsRows=2)),
             ('herm3', dict(Kinds={'lanczos', 'evo'}, Flavours={'herm'}, Charges={0}, Sizes={3}, MaxBlocks=1, MaxDim=3,
                            Perms={'cyc'}, UnitKinds={'gau'}, AVals='<-AValsSmall')),
-            LADDER]
+            LADDER, ILL]
 
 
 SIM_BIG = dict(Sizes={1, 2, 3, 4}, Charges={0, 1, 2}, MaxBlocks=4, MaxDim=12, DVals='<-DValsBig', GVals='<-GValsBig',
@@ -759,7 +826,7 @@ def check(ctx):
                 continue
             variant = rng.randrange(24)
             from_sim = origin.startswith('sim')
-            ladder = origin.startswith('mc-ladder')
+            ladder = origin.startswith('mc-ladder') or origin.startswith('mc-ill')
             if ctx.tier == 'quick' and not from_sim and not ladder and rng.random() < 0.6:
                 continue        # quick: a seeded half of the exhaustive catalogue (thorough: all of it)
             light = not from_sim      # catalogue cases: reduced option grid; simulated cases: the full grid
@@ -774,7 +841,7 @@ def check(ctx):
     ctx.trace_ok(nb)
     ctx.notes['cases_replayed'] = kinds_seen
     ctx.notes['wall_replay_s'] = round(time.time() - t1, 1)
-    for k in KINDS:
+    for k in ALL_KINDS:
         if not only and not kinds_seen.get(k):
             raise core.MachineryError('no %s case replayed' % k)
     t2 = time.time()
@@ -789,6 +856,7 @@ def check(ctx):
                 'BReortho', 'BBeta', 'BBreak', 'BNext', 'RUnshift', 'RReturn1', 'RMul', 'RCached', 'RClear', 'QCache', 'QMatvec', 'QAlpha',
                 'QReortho', 'QBeta', 'QScale', 'QAdd', 'RNorm', 'RReturn']
         need += ['Tr' + a for a in need[13:]] + ['TrStart', 'TrAccept']
+        need.append('DoOptGmresIll')
         never = [a for a in need if ctx.coverage_actions.get(a, (0, 0))[1] == 0]
         ctx.notes['actions_never_taken'] = never
         if never and not ctx.violations:
